@@ -299,11 +299,35 @@ func runSimCaseWith(t *rapid.T, o simOpts, setup func(*sim.World)) *sim.World {
 		if rapid.Bool().Draw(t, "eq-run-first") {
 			w.Apply(sim.Action{K: "run", N: rapid.SampledFrom([]int{3, 10, 40}).Draw(t, "eq-run")})
 		}
+		// partial progress: some message class never reaches some members (lost for good), so that one member can commit alone while
+		// others are left unprepared and go through a view change
+		eqHeld := rapid.IntRange(0, 2).Draw(t, "eq-hold?") > 0
+		if eqHeld {
+			for k := rapid.IntRange(1, 2).Draw(t, "eq-holds"); k > 0; k-- {
+				hr := sim.HoldRule{Types: uint8(rapid.SampledFrom([]int{1 << sim.UC, 1 << sim.UC, 1 << sim.UP, 1<<sim.UP | 1<<sim.UC}).Draw(t, "eq-hold-types")),
+					To: uint16(rapid.IntRange(1, int(full)).Draw(t, "eq-hold-to")), From: 0xffff}
+				if rapid.Bool().Draw(t, "eq-hold-from?") {
+					hr.From = uint16(rapid.IntRange(1, int(full)).Draw(t, "eq-hold-from"))
+				}
+				w.Apply(sim.Action{K: "hold", Hold: &hr})
+			}
+		}
 		for k := rapid.IntRange(1, 2).Draw(t, "eq-supports"); k > 0; k-- {
 			w.Apply(sim.Action{K: "byz", N: rapid.SampledFrom([]int{0, 20, 100}).Draw(t, "eq-then"), Byz: &sim.ByzSpec{Strat: "support", As: l,
 				To: uint16(rapid.IntRange(1, int(full)).Draw(t, "eq-support-to")), H: 1, V: 0, P: []int{rapid.IntRange(0, 1).Draw(t, "eq-which"), rapid.IntRange(0, 1).Draw(t, "eq-commits-only")}}})
 		}
 		w.Apply(sim.Action{K: "run", N: 100})
+		if eqHeld {
+			w.Apply(sim.Action{K: "dropheld"})
+			w.Apply(sim.Action{K: "release"})
+			for r := rapid.IntRange(1, 3).Draw(t, "eq-view-changes"); r > 0 && w.Viol == nil; r-- {
+				w.Apply(sim.Action{K: "timeouts", Mask: laggardMask(w)})
+				w.Apply(sim.Action{K: "run", N: rapid.SampledFrom([]int{20, 100}).Draw(t, "eq-vc-run")})
+				if rapid.IntRange(0, 2).Draw(t, "eq-vc-support") == 0 {
+					w.Apply(sim.Action{K: "byz", N: 60, Byz: &sim.ByzSpec{Strat: "support", As: l, To: full, H: 1, V: 0, P: []int{0, 0}}})
+				}
+			}
+		}
 	} else if l := w.LeaderIdx(1, 0); w.IsByz(l) && rapid.IntRange(0, 9).Draw(t, "template?") < 4 {
 		usedTemplate = true
 		full := uint16(1<<uint(cfg.N) - 1)
